@@ -55,13 +55,12 @@ type Amount int64
 
 // round converts a floating point number, which may or may not be representable
 // as an integer, to the Amount integer type by rounding to the nearest integer.
-// This is performed by adding or subtracting 0.5 depending on the sign, and
-// relying on integer truncation to round the value to the nearest Amount.
+// Halfway cases are rounded away from zero.
 func round(f float64) Amount {
-	if f < 0 {
-		return Amount(f - 0.5)
-	}
-	return Amount(f + 0.5)
+	// math.Round rounds half away from zero exactly.  Adding 0.5 and
+	// truncating does not: the sum is itself rounded, so the largest float
+	// below 0.5 became 1 and odd whole numbers at or above 2^52 moved up by one.
+	return Amount(math.Round(f))
 }
 
 // NewAmount creates an Amount from a floating point value representing
